@@ -36,7 +36,7 @@ def shards(tier, seed):
 
 def floors(tier):
     return {"relabel:calls": 1000, "relabel_map:calls": 500, "iso_finder:calls": 300, "iso_finder:sort_emit": 50,
-            "iso_finder:label_map": 50, "iso_finder:n>=8": 20, "iso_finder:n>=10": 15, "orbit:lc_orbit_finder": 100, "orbit:rgs": 10, "orbit:linear": 10, "orbit:scripted_walk_distinctness_checked": 20, "orbit:returned_graph_edited_and_explored": 15, "orbit:linear_even_length_repeated": 2,
+            "iso_finder:label_map": 50, "iso_finder:n>=8": 20, "iso_finder:n>=10": 15, "iso_finder:label_map_and_sort_emit": 40, "orbit:lc_orbit_finder": 100, "orbit:rgs": 10, "orbit:linear": 10, "orbit:scripted_walk_distinctness_checked": 20, "orbit:returned_graph_edited_and_explored": 15, "orbit:linear_even_length_repeated": 2,
             "orbit:depth_first": 20, "orbit:graphs_checked": 1000, "lcomp_probe:steps": 1000, "relabel_map:permuted_insertion_order": 1000}
 
 
@@ -203,7 +203,7 @@ def run_iso(spec, ctx, rng):
         nmax = math.factorial(n)
         kw = {"n_iso": int(min(nmax, [1, 2, 3, 5, 8, 13, 24, 40][int(rng.integers(8))])),
               "rel_inc_thresh": [0.2, 0.05, 0.5][int(rng.integers(3))], "allow_exhaustive": bool(rng.integers(2)),
-              "sort_emit": bool(i % 4 == 0), "label_map": bool(i % 5 == 0), "thresh": [None, 3, 50][int(rng.integers(3))],
+              "sort_emit": bool(i % 4 == 0 or i % 7 == 3), "label_map": bool(i % 5 == 0 or i % 7 == 3), "thresh": [None, 3, 50][int(rng.integers(3))],
               "seed": [None, int(rng.integers(1000))][int(rng.integers(2))]}
         check_iso(A, kw, ctx)
 
@@ -221,6 +221,8 @@ def check_iso(A, kw, ctx):
         ctx.count("iso_finder:sort_emit")
     if kw["label_map"]:
         ctx.count("iso_finder:label_map")
+    if kw["label_map"] and kw["sort_emit"]:
+        ctx.count("iso_finder:label_map_and_sort_emit")
     if kw["seed"] is None:
         np.random.seed(12345)
     try:
